@@ -205,10 +205,13 @@ func (gs GenesisState) ValidateDeposits(lzIDs map[uint64]struct{}, tokensTotalSt
 				)
 			}
 
-			if info.PendingUndelegationAmount.Add(info.WithdrawableAmount).GT(info.TotalDepositAmount) {
+			// PendingUndelegationAmount is the nominal amount of the pending undelegations: a
+			// slash lowers what they will pay out and the total deposit, but not this figure,
+			// so only the withdrawable amount is bounded by the total deposit.
+			if info.WithdrawableAmount.GT(info.TotalDepositAmount) {
 				return errorsmod.Wrapf(
 					ErrInvalidGenesisData,
-					"the sum of PendingUndelegationAmount and WithdrawableAmount is greater than the TotalDepositAmount, assetID: %s: %+v",
+					"the WithdrawableAmount is greater than the TotalDepositAmount, assetID: %s: %+v",
 					assetID, info,
 				)
 			}
